@@ -244,7 +244,8 @@ int main(int argc, char** argv) {
       for (const auto& x : st.syllabary) script.AddSyllable(x);
       auto list = New<ConfigList>();
       for (const auto& f : st.formulas) list->Append(New<ConfigValue>(f));
-      Projection p;
+      // one Projection for the whole run: a Load must replace, not extend, what an earlier Load left behind
+      static Projection p;
       bool loaded = p.Load(list);
       bool mod = loaded && p.Apply(&script);
       st.cur = script;
